@@ -117,3 +117,9 @@ Definition doc_allowlisted (w : allow_sit) : bool :=
       || (w_is_method w && w_owner_found w && (w_owner_testcase w || w_owner_allowlisted w))
       || (w_namedtuple w && (negb (w_allow_nt_subclass w) || negb (w_base_namedtuple w)))
   end.
+
+(* ---- (6) builtin overloads: a native callable is replaced by an overload only when it IS one of the
+        listed builtins -- never because of its name (bound C methods called abs / any / all ... keep
+        their receiver) *)
+Definition doc_overload (o : ov_sit) : overload_result :=
+  if o_in_supported o then OvMapped else OvSelf.
